@@ -77,8 +77,8 @@ local macro "wcvp_pass" : tactic => `(tactic| (
       (asymW p rwts.toList (cleanOf (missG nodata isnan isinf) y) zs.toList)).toArray := by
     rw [show zn2 = npSetSlice zn1 0 ma (Gen.Ws2d.ws2d ya _ wwn) from rfl,
       npSetSlice_full _ _ _ (by rw [hma, hzn1, hlen])
-        (by rw [gen_ws2d_size _ _ _ hwwsz (by omega), hysz, hzn1, hlen]),
-      rd_wr_zero _ _ (by omega), gen_ws2d_arr _ _ _ hwwsz (by omega), hya, hww]
+        (by rw [gen_ws2d_sizeW _ _ _ hwwsz (by omega), hysz, hzn1, hlen]),
+      rd_wr_zero _ _ (by omega), gen_ws2d_arrW _ _ _ hwwsz (by omega), hya, hww]
     simp [hrob]
   have hzt : zt = l1dist zn2.toList zs.toList := by
     simp only [zt, npSum, toList_npMap, toList_npMap2]
@@ -171,7 +171,7 @@ theorem gen_ws2dwcvp_eq_model (G : GFns α) (cos : α → α) (isnan isinf : α 
          rw [show 10 - (pyRange 0 10).length = 0 by simp [pyRange_length]] at hI
          obtain ⟨hex, hwsz⟩ := hI.final
          rw [wcvp_unfold, if_pos h4, hsel, outOf_some, hex, hb, rd_wr_zero _ _ (by omega),
-           gen_ws2d_arr _ _ _ (by rw [hwsz, hysz, hlen]) (by omega), hya, wr_one _ _ hl]
+           gen_ws2d_arrW _ _ _ (by rw [hwsz, hysz, hlen]) (by omega), hya, wr_one _ _ hl]
          simp [wcvOut, hrob]
          try first
            | rfl
